@@ -367,7 +367,11 @@ func genScript(t *rapid.T) Script {
 			g.committed, g.tx = g.tx, nil
 			g.probes(-1)
 		case c == 2 && g.tx != nil:
-			g.sc.Ops = append(g.sc.Ops, Op{Kind: "rollback"})
+			kind := "rollback"
+			if rapid.IntRange(0, 2).Draw(t, "commit-refused") == 0 {
+				kind = "commitfail" // the commit is refused by the storage engine: same outcome
+			}
+			g.sc.Ops = append(g.sc.Ops, Op{Kind: kind})
 			g.tx = nil
 			g.probes(-1)
 		case c <= 4:
